@@ -14,6 +14,7 @@ import (
 	"path/filepath"
 	"regexp"
 	"sort"
+	"strings"
 	"sync"
 	"time"
 )
@@ -301,8 +302,14 @@ func (r *Run) Finish() int {
 	wall := time.Since(r.start).Seconds()
 
 	for k, n := range r.required {
-		if r.counters[k] < n {
-			r.inconcl = append(r.inconcl, fmt.Sprintf("minimum observation not met: %s=%d < %d", k, r.counters[k], n))
+		have := r.counters[k]
+		if strings.HasPrefix(k, "distinct_") {
+			if m, ok := r.sets[strings.TrimPrefix(k, "distinct_")]; ok {
+				have = int64(len(m))
+			}
+		}
+		if have < n {
+			r.inconcl = append(r.inconcl, fmt.Sprintf("minimum observation not met: %s=%d < %d", k, have, n))
 		}
 	}
 	sort.Strings(r.inconcl)
